@@ -928,10 +928,10 @@ class C20(Prop):
     k = case['kind']
     if 'error' in out:
       return {'signature': 'control-raises:%s:%s' % (k, out['error']), 'what': out.get('message')}
-    if not out['benign_ok']:
-      return {'signature': 'benign-twin-fails', 'what': 'benign control does not parse'}
     if not out['ok']:
       return {'signature': 'control-not-well-formed:' + k, 'what': 'control %s: %s' % (k, out['why'])}
+    if not out['benign_ok']:
+      return {'signature': 'benign-twin-fails', 'what': 'benign control does not parse'}
     if not out['skeleton_equal']:
       return {'signature': 'control-data-changes-structure:' + k, 'what': 'structure differs from benign twin'}
     if out['missing']:
